@@ -854,6 +854,84 @@ pub fn t_dust(p: P) -> impl Fn() {
     }
 }
 
+/// T-liq-registry: three registered vAMMs; alice is under water on the LAST one; the owner then
+/// removes the first one from the insurance fund's registry (which re-orders the stored list);
+/// alice must still be liquidatable where she is, and the same on the middle vAMM for bob
+pub fn t_liq_registry(p: P) -> impl Fn() {
+    move || {
+        let mut cfg = p.cfg();
+        let d = cfg.d();
+        cfg.n_vamms = 3;
+        cfg.init_ratio = Uint128::new(d / 10);
+        cfg.liq_fee = ratio("liq_fee", d, d / 20);
+        let mut r = p.run_cfg(cfg);
+        p.prefix_mode();
+        let l = Uint128::new(10 * d);
+        for (vi, who, counter) in [(2usize, ALICE, CAROL), (1, BOB, EVE)] {
+            r.vi = vi;
+            let m1 = Uint128::new(25 * d);
+            let f = funds_for(&r, &p, m1, l);
+            if !r.step(Op::Open { who, side: p.side.clone(), margin: m1, lev: l, limit: Uint128::zero(), funds: f }).tx.ok {
+                r.vi = 0;
+                return;
+            }
+            r.w.next_block(15);
+            let m2 = Uint128::new(45 * d);
+            let f = funds_for(&r, &p, m2, l);
+            if !r.step(Op::Open { who: counter, side: opp(&p.side), margin: m2, lev: l, limit: Uint128::zero(), funds: f }).tx.ok {
+                r.vi = 0;
+                return;
+            }
+            r.w.next_block(15);
+        }
+        r.w.next_block(1000);
+        let v0 = r.w.vamms[0].to_string();
+        let t = r.w.ins_exec(OWNER, &margined_perp::margined_insurance_fund::ExecuteMsg::RemoveVamm { vamm: v0 });
+        assert!(t.ok, "remove vamm: {}", t.err);
+        symrt::set_full(true);
+        r.vi = 2;
+        r.step(Op::Liquidate { by: LIQ, trader: ALICE, limit: Uint128::zero() });
+        r.vi = 1;
+        r.step(Op::Liquidate { by: LIQ, trader: BOB, limit: Uint128::zero() });
+        r.vi = 0;
+    }
+}
+
+/// T-adverse-withdraw: alice 10x, bob trades against her (regimes by `units`), alice tries to
+/// withdraw a symbolic amount (free collateral may already be negative), then deposits and
+/// withdraws again
+pub fn t_adverse_withdraw(p: P, units: u128) -> impl Fn() {
+    move || {
+        let mut cfg = p.cfg();
+        let d = cfg.d();
+        cfg.init_ratio = Uint128::new(d / 10);
+        let mut r = p.run_cfg(cfg);
+        p.prefix_mode();
+        let l = Uint128::new(10 * d);
+        let m1 = Uint128::new(60 * d);
+        let f = funds_for(&r, &p, m1, l);
+        if !r.step(Op::Open { who: ALICE, side: p.side.clone(), margin: m1, lev: l, limit: Uint128::zero(), funds: f }).tx.ok {
+            return;
+        }
+        r.w.next_block(15);
+        let m2 = Uint128::new(units * d);
+        let l2 = Uint128::new(5 * d);
+        let f = funds_for(&r, &p, m2, l2);
+        if !r.step(Op::Open { who: BOB, side: opp(&p.side), margin: m2, lev: l2, limit: Uint128::zero(), funds: f }).tx.ok {
+            return;
+        }
+        r.w.next_block(1000);
+        symrt::set_full(true);
+        let a = amount("wd", d, false, 15);
+        r.step(Op::Withdraw { who: ALICE, amount: a });
+        let b = amount("dep", d, false, 20);
+        let f = if p.native { Some(b) } else { None };
+        r.step(Op::Deposit { who: ALICE, amount: b, funds: f });
+        let c2 = amount("wd2", d, false, 3);
+        r.step(Op::Withdraw { who: ALICE, amount: c2 });
+    }
+}
+
 // ------------------------------------------------------------------------------------------
 // generated histories
 // ------------------------------------------------------------------------------------------
